@@ -118,9 +118,9 @@ class WireChoices:
     strict                refuse content outside the CDDL (empty non-empty sets, duplicate table keys, foreign keys)
     body_order/wits_order the order in which the keys of the body / witness-set map are written (the CDDL does not
                           prescribe one; ascending is what the rule "struct maps in ascending key order" gives)
-    table_order           order of the entries of table maps: "canonical" (RFC 7049 length-first: the rule of this
-                          reference), "bytewise" (plain lexicographic, what the ledger's own serializer writes) or
-                          "given" (the order of the content lists)"""
+    table_order           order of the entries of table maps: "canonical" (RFC 7049 length-first on the encoded key: the
+                          rule of this reference), "bytewise" (order of the key values: byte strings by content, what
+                          the ledger's own serializer and cardano-cli write) or "given" (the order of the content lists)"""
     sets: dict = field(default_factory=dict)
     default_tag: bool = True
     outputs: dict = field(default_factory=dict)
@@ -130,7 +130,7 @@ class WireChoices:
     strict: bool = True
     body_order: list = None        # body map keys in wire order (None = ascending); keys not listed follow, ascending
     wits_order: list = None
-    table_order: str = "canonical"  # canonical (length-first) | bytewise (the ledger's own writer) | given (content order)
+    table_order: str = "canonical"  # canonical (length-first) | bytewise (key values; the ledger's own writer) | given
 
     def tagged(self, site):
         assert site in SET_SITES, site
@@ -241,6 +241,20 @@ def t_struct(pairs, order=None):
     return R.Map(sorted(pairs, key=lambda kv: kv[0]))
 
 
+def ledger_key(k):
+    """order of the ledger's own writer (Haskell `Ord` on the key VALUE: integers numerically, byte strings by content,
+    arrays component-wise), as opposed to the length-first order of the encoded key"""
+    if _isint(k):
+        return (0, k)
+    if isinstance(k, (bytes, bytearray)):
+        return (1, bytes(k))
+    if isinstance(k, str):
+        return (2, k)
+    if isinstance(k, (list, tuple)):
+        return (3, tuple(ledger_key(x) for x in k))
+    return (4, R.enc(k))
+
+
 def t_table(pairs, w, what):
     """table map: canonical (length-first, bytewise) order of the encoded keys; keys distinct"""
     ks = [R.enc(k) for k, _ in pairs]
@@ -248,7 +262,7 @@ def t_table(pairs, w, what):
         _need(len(set(ks)) == len(ks), f"{what}: repeated key")
     if w.table_order == "given":
         return R.Map(list(pairs))
-    order = sorted(range(len(pairs)), key=(lambda i: ks[i]) if w.table_order == "bytewise" else (lambda i: R.canonical_key(ks[i])))
+    order = sorted(range(len(pairs)), key=(lambda i: ledger_key(pairs[i][0])) if w.table_order == "bytewise" else (lambda i: R.canonical_key(ks[i])))
     return R.Map([pairs[i] for i in order])
 
 
@@ -839,7 +853,8 @@ class Lifter:
         self.no(len(set(ks)) == len(ks), f"{what}: repeated key")
         if not all(R.canonical_key(a) < R.canonical_key(b) for a, b in zip(ks, ks[1:])):
             self.table_modes.discard("canonical")
-        if not all(a < b for a, b in zip(ks, ks[1:])):
+        lk = [ledger_key(k) for k, _ in x.pairs]
+        if not all(a < b for a, b in zip(lk, lk[1:])):
             self.table_modes.discard("bytewise")
         return x.pairs
 
